@@ -557,8 +557,16 @@ impl Process {
             return SignalResult::default();
         }
 
+        let was_stopped =
+            matches!(self.state, ProcessState::Halted(result) if result.is_stopped());
         let process_state_changed =
             signal == signal::SIGCONT && self.set_state(ProcessState::Running);
+        if signal == signal::SIGCONT {
+            // Stop signals that have not been delivered yet are discarded.
+            for stop in [signal::SIGSTOP, signal::SIGTSTP, signal::SIGTTIN, signal::SIGTTOU] {
+                self.pending_signals.remove(stop).ok();
+            }
+        }
 
         let mut result = if signal != signal::SIGKILL
             && signal != signal::SIGSTOP
@@ -566,9 +574,21 @@ impl Process {
         {
             self.pending_signals.insert(signal).ok();
             SignalResult::default()
+        } else if was_stopped && signal == signal::SIGSTOP {
+            // Already stopped
+            SignalResult::default()
+        } else if was_stopped && signal != signal::SIGKILL && signal != signal::SIGCONT {
+            // A stopped process does not act on a signal until it is continued.
+            self.pending_signals.insert(signal).ok();
+            SignalResult::default()
         } else {
             self.deliver_signal(signal)
         };
+
+        if was_stopped && process_state_changed {
+            // Deliver the signals that arrived while the process was stopped.
+            result |= self.deliver_pending_signals();
+        }
 
         result.process_state_changed |= process_state_changed;
         result
